@@ -2,6 +2,8 @@
 
 package redisemu
 
+import "fmt"
+
 // Optional introspection of private state (bucket-table sizes). It lives under its own build
 // tag: if a refactoring breaks it, build.sh falls back to building without it and the checks
 // only lose the corresponding evidence counters, never their verdict.
@@ -23,5 +25,17 @@ func init() {
 			return len(d.buckets)
 		}
 		return 0
+	}
+}
+
+func init() {
+	VDeepSessionState = func(c *VClient) string {
+		cs := c.cs
+		multi := cs.cmdQueue != nil
+		qlen := 0
+		if multi {
+			qlen = len(*cs.cmdQueue)
+		}
+		return fmt.Sprintf("db=%d proto=%d name=%q multi=%v qlen=%d abort=%v watches=%d", cs.selectedDb, cs.respVersion, cs.name, multi, qlen, cs.cmdQueueError, len(cs.watches))
 	}
 }
